@@ -5688,6 +5688,10 @@ class PyCdlib:
         self.isohybrid_mbr.new(efi, mac, part_entry, mbr_id, part_offset,
                                geometry_sectors, geometry_heads, part_type)
 
+        # The MBR (and GPT/APM) hold the location of the boot files, which is
+        # filled in when the extents are assigned.
+        self._finish_add(0, 0)
+
     def rm_isohybrid(self):
         # type: () -> None
         """
